@@ -243,6 +243,8 @@ def torsion_case(draw):
         part="torsion", chain=ch, res=draw(st.integers(0, n - 1)), which=draw(st.integers(0, 7)),
         target=draw(st.one_of(strat.fl(-180.0, 180.0), strat.fl(-720.0, 720.0),
                               st.sampled_from([0.0, 180.0, -180.0, 90.0]))),
+        # the debumper turns in small steps: a request RELATIVE to the present angle
+        rel=draw(st.sampled_from([None, None, 5.0, -5.0, 1.0, -0.5, 0.1])),
     )  # fmt: skip
 
 
@@ -276,6 +278,8 @@ def check_torsion(case):
     quad = names[k].split()
     before = {a.name: np.array(a.coords) for a in residue.atoms}
     old = geom.dihedral(*(before[x] for x in quad))
+    if case.get("rel") is not None:
+        case = dict(case, target=old + case["rel"])
     deb.set_dihedral_angle(residue, k, case["target"])
     after = {a.name: np.array(a.coords) for a in residue.atoms}
     new = geom.dihedral(*(after[x] for x in quad))
@@ -296,6 +300,28 @@ def check_torsion(case):
             if abs(d0 - d1) > 1e-9 * max(1.0, d0):
                 res.bad("C15:torsion:axis-distance",
                         f"{base} {names[k]}: |{n}-{ax}| {d0:.6f} -> {d1:.6f}")  # fmt: skip
+                break
+    # explicit oracle: the atoms beyond the axis bond (template bond graph) are the Rodrigues rotation of
+    # their old positions about the axis by (target - old); every other atom stays where it was
+    ch = case["chain"]
+    ri = case["res"] % len(bio.residues)
+    st_ = topo.expected_state(ch["seq"][ri], ri == 0, ri == len(ch["seq"]) - 1)
+    side = topo.far_side(st_["bonds"], quad[1], quad[2])
+    if side is not None:
+        # (the angle actually applied is MEASURED - its agreement with the request is checked above at
+        # 0.05 deg; here every atom must have turned by that same angle, or not at all)
+        delta = ((new - old + 180.0) % 360.0) - 180.0
+        for n in before:
+            if n in (quad[1], quad[2]) or n not in st_["bonds"]:
+                continue
+            if n in side:
+                want = geom.rot_about([before[n]], before[quad[1]], before[quad[2]], delta)[0]
+            else:
+                want = before[n]
+            err = float(np.linalg.norm(after[n] - want))
+            if err > 2e-6 * max(1.0, float(np.linalg.norm(before[n]))):
+                res.bad("C15:torsion:placement", f"{base} {names[k]} by {delta:.3f} deg: {n} is {err:.2e} A from where the rigid "
+                        f"rotation puts it (|r| = {np.linalg.norm(before[n]):.0f} A)")  # fmt: skip
                 break
     if len(moved) > 1:
         M0 = np.array([before[n] for n in moved])
